@@ -96,6 +96,7 @@ pub struct C10World {
     requests: usize,
     done: Option<Seen>,
     eof: bool,
+    label: &'static str,
     zero_answered: bool,
     /// The kernel failed a request with this errno.
     failed: Option<i32>,
@@ -173,6 +174,12 @@ where
 
 impl C10World {
     pub fn new(cases: std::rc::Rc<Vec<Case>>) -> C10World {
+        C10World::labelled(cases, "C10")
+    }
+
+    /// The same world reporting under another property (C02: what a composite future resolves with
+    /// is what the kernel produced for its submissions -- no made-up success, data or error).
+    pub fn labelled(cases: std::rc::Rc<Vec<Case>>, label: &'static str) -> C10World {
         simk::reset(simk::SetupPlan::default());
         talloc::set_on_free(Some(simk::on_free));
         let (ring, sq, fd) = talloc::track(|| {
@@ -197,6 +204,7 @@ impl C10World {
             requests: 0,
             done: None,
             eof: false,
+            label,
             zero_answered: false,
             failed: None,
             first_opcode: None,
@@ -208,7 +216,7 @@ impl C10World {
     fn bad(&mut self, sig: &str, msg: String) {
         let c = self.case.as_ref().unwrap();
         let sig = format!("{sig}/{:?}", c.api);
-        self.violations.push(Violation::new("C10", &sig, &format!("{msg} [case {c:?}]")));
+        self.violations.push(Violation::new(self.label, &sig, &format!("{msg} [case {c:?}]")));
     }
 
     fn start(&mut self, case: Case) {
